@@ -20,7 +20,7 @@ INVARIANTS = ["C04_Tally"]
 PROPERTIES = ["C04_Lifecycle"]
 QUICK = ['chain2', 'alw', 'retry_s', 'upd3']
 THOROUGH = ['chain2', 'alw', 'retry_s', 'nest_s', 'diamond', 'jpim_s', 'upd2', 'grp2', 'jpim', 'retry', 'upd3']
-FINDINGS = [("uncchild", "upd2", ["C04_Tally"])]
+FINDINGS = []
 
 
 def run(ctx):
